@@ -34,7 +34,7 @@ def gen_cases(tier, seed):
              "perturb": r.choice(["instr", "instr", "none"]) if W > 1 else "none",
              "max_errors": r.choice([0, 0, 1, 2, 5, None]),
              "faults": {"kinds": r.choice([["exc"], ["exc", "value", "callerr"], ["base"], ["kbi", "sysexit", "genexit"], ["exc", "base", "kbi", "value", "callerr"], ["callerr"],
-                                            ["exc", "base", "falsy", "sysexit"], ["falsy", "falsybase", "value"]])}}
+                                            ["exc", "base", "falsy", "sysexit"], ["falsy", "falsybase", "value"], ["listargs", "exc"], ["listargs"]])}}
         if r.random() < 0.12:
             # one call at a time, several failures of different kinds, the run allowed to go on: "it is the first call that failed"
             d.update(W=1, perturb="none", max_errors=r.choice([None, None, 2, 5]))
@@ -53,9 +53,16 @@ def gen_cases(tier, seed):
         if r.random() < 0.2:
             d["retry"] = r.choice([2, 3])
             d["faults"]["flaky"] = r.random() < 0.5
-        if r.random() < 0.06:
+        if r.random() < (0.3 if "listargs" in d["faults"]["kinds"] else 0.06):
             d["display"] = (r.choice(["html", "html", "html_in_list", "html_and_null"]), r.choice(["bytesio_write", "returns_true", "returns_obj"]))
         out.append(d)
+    for i in range(max(20, n // 60)):
+        # calls of C-implemented functions that fail (no Python frame of their own), with and without retry (built-in, and custom decorators that
+        # add no frame either): the reported call is that call and its cause is what the function raised
+        s = env.seed_for(seed, ID, tier, "builtin_fail", i)
+        r = random.Random(env.seed_for(s, "descriptor"))
+        out.append({"seed": s, "mode": "builtin_fail", "n": r.randint(1, 5), "W": r.choice([1, 2, 4]), "sched": r.choice(["default", "random"]),
+                    "retry": r.choice([None, 2, 3, "noframe", "noframe"]), "max_errors": r.choice([0, None])})
     for i in range(n // 8):
         # registry runs: a plan function (often the writer behind a chain of dependent sources) raises; nothing that depends on it - no
         # call, no read of a source behind it, no write - may start, and the error must name a call that failed
@@ -160,9 +167,51 @@ def irmod_val(i, v):
     return irmod.Val(("src", i), v)
 
 
+def run_builtin_fail(desc):
+    import operator
+
+    import uberjob
+
+    rng = random.Random(desc["seed"])
+    plan = uberjob.Plan()
+    ok = plan.call(operator.add, 1, 1)
+    kinds = [("truediv", lambda: plan.call(operator.truediv, ok, 0), ZeroDivisionError), ("int", lambda: plan.call(int, "not a number"), ValueError),
+             ("getitem", lambda: plan.call(operator.getitem, [1, 2], 7), IndexError), ("len", lambda: plan.call(len, ok), TypeError)]
+    failing = {}
+    nodes = [ok]
+    for _ in range(desc["n"]):
+        nm, mk, et = rng.choice(kinds)
+        nd = mk()
+        failing[nd] = (nm, et)
+        nodes.append(nd)
+    retry = desc["retry"]
+    if retry == "noframe":
+        retry = lambda f: f  # a custom retry decorator that adds no frame (it hands the function back)
+    exc = None
+    try:
+        uberjob.run(plan, output=nodes, max_workers=desc["W"], scheduler=desc["sched"], retry=retry, max_errors=desc["max_errors"], progress=None)
+    except BaseException as e:
+        exc = e
+    bad = None
+    if not isinstance(exc, uberjob.CallError):
+        bad = f"{len(failing)} failing call(s) of C-implemented functions: run ended with {exc!r} instead of CallError"
+    elif exc.call not in failing:
+        bad = f"CallError.call is {exc.call!r}, which is none of the failing calls"
+    else:
+        nm, et = failing[exc.call]
+        if type(exc.__cause__) is not et:
+            bad = f"CallError of the failing {nm} call has __cause__ {exc.__cause__!r}; the function raised a {et.__name__}"
+    res = {"status": "ok", "counters": {"builtin_fail_runs": 1, "failing_runs": 1}, "nontrivial": True, "sig": f"builtin_fail|{desc['seed'] % 100000}"}
+    if bad:
+        res.update(status="violation", mechanism="error-identity", detail=f"[C-implemented failing callables, retry={desc['retry']}, W={desc['W']}] {bad}")
+    return res
+
+
 def run_case(desc):
     import uberjob
 
+    if desc.get("mode") == "builtin_fail":
+        return run_builtin_fail(desc)
     if desc.get("mode") == "registry":
         return run_registry(desc)
     progress = None
